@@ -91,6 +91,21 @@ Proof.
   exact (decode_family gen_env f f' t v b rest c16_generated_extends generated_env_rt c16_generated_params_plain Hf Hf' Hs W H).
 Qed.
 
+(* non-vacuity: a GetInfo response that is well-typed without features, lifted into the get-info-full
+   configuration, gains exactly the 13 members that exist only there, all absent *)
+Definition c16_ex_gi : val :=
+  VRec [("versions", VList [VEnum "Fido2_1"]); ("extensions", VNone); ("aaguid", VBytes (repeat 3 16));
+        ("options", VNone); ("max_msg_size", VNone); ("pin_protocols", VNone); ("max_creds_in_list", VNone);
+        ("max_cred_id_length", VNone); ("transports", VNone); ("algorithms", VNone);
+        ("max_serialized_large_blob_array", VNone)].
+Example c16_ex_lift :
+  wt (gen_env []) type_fuel (TNamed "ctap2::get_info::Response") c16_ex_gi = true /\
+  match lift (gen_env ["get-info-full"]) type_fuel (TNamed "ctap2::get_info::Response") c16_ex_gi with
+  | VRec vs => blen vs = 24 /\ firstn 11 vs = match c16_ex_gi with VRec l => l | _ => [] end
+               /\ forallb (fun p => match snd p with VNone => true | _ => false end) (skipn 11 vs) = true
+  | _ => False end.
+Proof. vm_compute. repeat split; reflexivity. Qed.
+
 Example c16_ex : subset_feats ["large-blobs"] ["get-info-full"; "large-blobs"] = true.
 Proof. reflexivity. Qed.
 
